@@ -406,6 +406,12 @@ func (s *Store) lookupSecretInternal(ctx context.Context, name string) (Secret, 
 
 			s.active.Lock()
 			defer s.active.Unlock()
+			if _, ok := s.active.m[name]; ok {
+				// Another lookup installed this secret while our request was in
+				// flight. Keep that entry: polls keep it current and its watchers
+				// have seen it, whereas replacing it here would bypass them.
+				return s.secretLocked(name), nil
+			}
 			s.active.m[name] = &cachedSecret{Secret: sv, LastAccess: s.timeNow().Unix()}
 			if err := s.flushCacheLocked(); err != nil {
 				s.logf("WARNING: error flushing cache: %v", err)
